@@ -169,7 +169,12 @@ def asset_term(a, spec, G='G'):
         step_units = freq_td_(g['freq']) / freq_td_(g.get('unit', 'h'))
         st = lambda v: C.nat(int(math.ceil((v or 0) / step_units - 1e-12)))
         opt_s = lambda v: 'None' if v is None else '(Some %s)' % C.s(v)
-        pp = '(Build_plant_p %s %s %s %s %s %s %s %s %s %s %s %s %s %s %s %s)' % (
+        if a.get('ramp_freq') not in (None, g['freq']) and (a.get('start_ramp_lower_bounds') or a.get('shutdown_ramp_lower_bounds')):
+            raise ValueError('profile in another frequency than the grid (interpolation not modelled)')
+        srl = a.get('start_ramp_lower_bounds') or []
+        sdl = a.get('shutdown_ramp_lower_bounds') or []
+        prof = ' '.join(C.qvec([float(v) for v in w]) for w in (srl, a.get('start_ramp_upper_bounds') or srl, sdl, a.get('shutdown_ramp_upper_bounds') or sdl))
+        pp = '(Build_plant_p %s %s %s %s %s %s %s %s %s %s %s %s %s %s %s %s ' % (
             opt_s(heat), opt_s(fuel), 'None' if a.get('ramp') is None else '(Some %s)' % C.q(float(a['ramp'])), C.q(float(a.get('last_dispatch', 0.0))),
             param_term(a.get('start_costs', 0.0), spec, g), param_term(a.get('running_costs', 0.0), spec, g),
             st(a.get('min_runtime', 0)), st(a.get('time_already_running', 0)), st(a.get('min_downtime', 0)), st(a.get('time_already_off', 0)),
@@ -177,7 +182,7 @@ def asset_term(a, spec, G='G'):
             param_term(a.get('conversion_factor_power_heat', 1.0), spec, g),
             'None' if a.get('max_share_heat') is None else '(Some %s)' % param_term(a['max_share_heat'], spec, g),
             param_term(a.get('start_fuel', 0.0), spec, g), param_term(a.get('fuel_efficiency', 1.0), spec, g),
-            param_term(a.get('consumption_if_on', 0.0), spec, g))
+            param_term(a.get('consumption_if_on', 0.0), spec, g)) + '%s %s)' % (prof, C.q(float(step_units)))
         return '(build_plant %s %s %s %s %s %s)' % (G, rg, cp, takes_term(a.get('max_take'), g), takes_term(a.get('min_take'), g), pp)
     if k == 'OrderBook':
         tz = g.get('tz')
